@@ -87,6 +87,9 @@ def run_lines(exe, lines, env=None, timeout=900, parse=True, raw=False, wrapper=
             env["VERIF_ALIGN"] = "1"
         elif h == 3:
             env["VERIF_ALIGN"] = "2"
+        # the drivers adopt the environment's locale (setlocale(LC_ALL, "")): every other batch runs under C.UTF-8
+        if lines and (zlib.crc32(lines[0].encode("ascii", "replace")) >> 2) & 1:
+            env["LC_ALL"] = "C.UTF-8"
     try:
         p = subprocess.run(cmd, input=data, stdout=subprocess.PIPE, stderr=subprocess.PIPE,
                            env=env or build.san_env(), timeout=timeout)
